@@ -4,10 +4,24 @@ cd /verif || exit 9
 unset VERIF_REPO VERIF_EVIDENCE_DIR
 python3 vf/mkmanifest.py || exit 1
 rc=0
+: > build/known_hits.txt
 for p in $(python3 -c "import sys; sys.path.insert(0,'/verif'); from vf.properties import PROPS; print(' '.join(sorted(PROPS)))"); do
-  python3 vf/main.py check $p --tier quick | grep -v '^KNOWN' | tail -1
-  [ ${PIPESTATUS[0]} -ne 0 ] && rc=1
+  python3 vf/main.py check $p --tier quick > build/refresh_$p.out; r=$?
+  grep '^KNOWN' build/refresh_$p.out >> build/known_hits.txt
+  grep -v '^KNOWN' build/refresh_$p.out | tail -1
+  [ $r -ne 0 ] && rc=1
 done
+# a `finding:` line that no check reports any more is stale (the defect was repaired or the class string changed): list it
+python3 - <<'PY'
+import sys, re
+sys.path.insert(0, '/verif')
+from vf.main import load_known
+known, _ = load_known()
+hits = open('/verif/build/known_hits.txt').read()
+stale = [k for k in known if ("property=%s %s input=%s" % (k["property"], k["obligation"], k["input"])) not in hits]
+print("known findings: %d listed, %d reported by the quick checks, %d stale" % (len(known), len(known) - len(stale), len(stale)))
+for k in stale: print("  STALE finding: property=%s unit=%s obligation=%r input=%r" % (k["property"], k["unit"], k["obligation"][:80], k["input"][:80]))
+PY
 python3-vt - <<'PY' || rc=1
 import json, jsonschema, glob
 jsonschema.validate(json.load(open('/verif/MANIFEST.json')), json.load(open('/root/.vp/MANIFEST.schema.json')))
